@@ -110,31 +110,31 @@ def handle_events(sol_tuple, events, consts, direction, is_terminal, attributes)
         verbose=False
     )
 
-    g = [ev_f[idx](t_root - (t_next - t_prev) * D.epsilon(roots[0].dtype) ** 0.5) for idx, t_root in enumerate(roots)]
-    g_cen = [ev_f[idx](t_root) for idx, t_root in enumerate(roots)]
-    g_new = [ev_f[idx](t_root + (t_next - t_prev) * D.epsilon(roots[0].dtype) ** 0.5) for idx, t_root in enumerate(roots)]
-
-    g = D.ar_numpy.stack(g)
-    g_cen = D.ar_numpy.stack(g_cen)
-    g_new = D.ar_numpy.stack(g_new)
+    g_cen = D.ar_numpy.stack([ev_f[idx](t_root) for idx, t_root in enumerate(roots)])
 
     if D.autoray.infer_backend(roots[0]) == 'torch':
-        direction = direction.to(g.device)
+        direction = direction.to(g_cen.device)
 
-    up = ((g <= 0) & (g_new >= 0)) | ((g <= 0) & (g_cen >= 0)) | ((g_cen <= 0) & (g_new >= 0))
-    down = ((g >= 0) & (g_new <= 0)) | ((g >= 0) & (g_cen <= 0)) | ((g_cen >= 0) & (g_new <= 0))
+    def __rises(before, after):
+        # a pair of probes that are both exactly zero carries no information about the direction of the crossing
+        return (before <= 0) & (after >= 0) & ((before < 0) | (after > 0))
 
-    for receptive_field in [1.0, 2.0, 3.0]:
-        g = [ev_f[idx](t_root - receptive_field * (t_next - t_prev) * D.epsilon(roots[0].dtype) ** 0.75) for idx, t_root in
-             enumerate(roots)]
-        g_new = [ev_f[idx](t_root + receptive_field * (t_next - t_prev) * D.epsilon(roots[0].dtype) ** 0.75) for idx, t_root in
-                 enumerate(roots)]
-
-        g = D.ar_numpy.stack(g)
-        g_new = D.ar_numpy.stack(g_new)
-
-        up = up | (((g <= 0) & (g_new >= 0)) | ((g <= 0) & (g_cen >= 0)) | ((g_cen <= 0) & (g_new >= 0)))
-        down = down | ((g >= 0) & (g_new <= 0)) | ((g >= 0) & (g_cen <= 0)) | ((g_cen >= 0) & (g_new <= 0))
+    # The direction of each crossing is read from probes on either side of the root, widest first. A probe width that
+    # shows a crossing in one direction only settles it; narrower widths (where the values of the event function are
+    # at rounding level) are only consulted for events that are still undecided.
+    probe_widths = [D.epsilon(roots[0].dtype) ** 0.5] + [receptive_field * D.epsilon(roots[0].dtype) ** 0.75 for receptive_field in [3.0, 2.0, 1.0]]
+    up, down, decided = None, None, None
+    for width in probe_widths:
+        g = D.ar_numpy.stack([ev_f[idx](t_root - width * (t_next - t_prev)) for idx, t_root in enumerate(roots)])
+        g_new = D.ar_numpy.stack([ev_f[idx](t_root + width * (t_next - t_prev)) for idx, t_root in enumerate(roots)])
+        rises = __rises(g, g_new) | __rises(g, g_cen) | __rises(g_cen, g_new)
+        falls = __rises(-g, -g_new) | __rises(-g, -g_cen) | __rises(-g_cen, -g_new)
+        if up is None:
+            up, down, decided = rises, falls, rises ^ falls
+        else:
+            up = up | (rises & ~decided)
+            down = down | (falls & ~decided)
+            decided = decided | (rises ^ falls)
 
     up = success & up
     down = success & down
